@@ -821,10 +821,13 @@ func (w *World) epilogue() {
 	// after a rebuilt cache: resubmit a few of the entries the tool read
 	if strict && primary.state == stRunning && primary.recomputed != nil && primary.recomputedEpoch == primary.cacheEpoch {
 		n := 0
-		for _, it := range w.items {
-			if _, ok := primary.recomputed[it.Key]; ok && n < 3 {
-				n++
-				w.doSubmit(primary, it, false, core.Cmd{})
+		for _, precert := range []bool{true, false} {
+			for _, it := range append(append([]*Item(nil), w.prefillItems...), w.items...) {
+				if _, ok := primary.recomputed[it.Key]; ok && n < 6 && it.Entry.IsPrecert == precert {
+					n++
+					w.sim.Probe("recompute.epilogue.resubmit")
+					w.doSubmit(primary, it, false, core.Cmd{})
+				}
 			}
 		}
 		for i := 0; i < 5 && w.unfinished(primary) > 0; i++ {
